@@ -6,16 +6,20 @@ gives the function as it reads with chosen helper calls expanded in place, so th
 whichever way it is cut up.  Nothing is executed; the expansion is a source-to-source rewriting with these limits:
 
   call sites    statements of the forms  `x = h(..)`,  `h(..)`,  `return h(..)`,  `if [not] h(..):` (h answering with
-                True / False only: each answer is replaced by the branch it selects),  where h is `self.<method>` of the
+                True / False only: each answer is replaced by the branch it selects); a call evaluated unconditionally
+                inside a larger expression of a simple statement is first given a name (`t = h(..)`);  h is `self.<method>` of the
                 same class (or a base class in the repo), a function of the same module, or a function nested in the
                 caller; no *args / **kwargs on either side
   helpers       plain functions (no generator, no global / nonlocal, no decorator other than staticmethod) in which
                 `return` occurs only in `if` nests - code after an `if` that returned moves into the other branch;
-                a `return` inside a loop, `try` or `with` cannot be expressed without a jump and the call is left alone
+                a `return` inside a loop (without break / else of its own) becomes `<result>; break` with the code after
+                the loop as the loop's else-branch; a `return` inside `try` / `with` or an inner loop cannot be expressed
+                without a jump and the call is left alone
   parameters    an argument that is a name, a constant, an attribute path or a lambda replaces a parameter the
                 helper never assigns (a lambda applied in the helper is beta-reduced); anything else is bound by an
                 assignment in front of the expansion
-  names         locals of the helper that also occur in the caller are renamed `<name>__<helper>`
+  names         locals of the helper that also occur in the caller are renamed `<name>__<helper>`, except those the call
+                statement assigns anyway
 
 A call that does not fit stays as it is (the rule then sees what it saw before).  Positions of the helper's statements
 are kept, so a report points at the line in the helper.
@@ -66,7 +70,7 @@ def _terminates(stmts):
     return False
 
 
-def _structure(stmts, ret):
+def _structure(stmts, ret, loops_ok=False):
     """stmts without `return`: ret(return stmt) gives the replacement; what follows an `if` that returns is moved into
     the branches that go on"""
     out = []
@@ -76,13 +80,60 @@ def _structure(stmts, ret):
             return out
         if isinstance(s, ast.If) and _has_return([s]):
             rest = list(stmts[i + 1:])
-            body = _structure(list(s.body) + ([] if _terminates(s.body) else copy.deepcopy(rest)), ret)
-            orelse = _structure(list(s.orelse) + ([] if _terminates(s.orelse) else copy.deepcopy(rest)), ret)
+            body = _structure(list(s.body) + ([] if _terminates(s.body) else copy.deepcopy(rest)), ret, loops_ok)
+            orelse = _structure(list(s.orelse) + ([] if _terminates(s.orelse) else copy.deepcopy(rest)), ret, loops_ok)
             new = ast.If(test=s.test, body=body or [ast.copy_location(ast.Pass(), s)], orelse=orelse)
             out.append(ast.copy_location(new, s))
             return out
+        if isinstance(s, (ast.For, ast.While)) and _has_return([s]) and loops_ok:
+            # `for ..: .. return v` followed by rest  ==  `for ..: .. <v>; break` with rest as the loop's else-branch, if
+            # the loop has no break / else of its own (the else-branch of a loop runs when it was not left by break)
+            own = _own_level(s.body)
+            if s.orelse or any(isinstance(n, ast.Break) for n in own) or _has_return_in_inner_loop(s.body):
+                raise NotInlinable('return inside a loop that has a break or an else-branch')
+            s.body = _loop_returns(s.body, ret)
+            s.orelse = _structure(list(stmts[i + 1:]), ret, loops_ok)
+            out.append(s)
+            return out
         if not isinstance(s, (ast.FunctionDef, ast.AsyncFunctionDef, ast.ClassDef)) and _has_return([s]):
             raise NotInlinable('return inside %s' % type(s).__name__)
+        out.append(s)
+    return out
+
+
+def _own_level(stmts):
+    """nodes of stmts that belong to the enclosing loop: inner loops and definitions are not entered"""
+    todo = list(stmts)
+    while todo:
+        n = todo.pop()
+        yield n
+        for c in ast.iter_child_nodes(n):
+            if isinstance(c, (ast.For, ast.While, ast.FunctionDef, ast.AsyncFunctionDef, ast.ClassDef, ast.Lambda)):
+                continue
+            todo.append(c)
+
+
+def _has_return_in_inner_loop(stmts):
+    for n in _own_level(stmts):
+        for c in ast.iter_child_nodes(n):
+            if isinstance(c, (ast.For, ast.While)) and _has_return([c]):
+                return True
+    return any(isinstance(s, (ast.For, ast.While)) and _has_return([s]) for s in stmts)
+
+
+def _loop_returns(stmts, ret):
+    out = []
+    for s in stmts:
+        if isinstance(s, ast.Return):
+            out.extend(ret(s))
+            out.append(ast.copy_location(ast.Break(), s))
+            return out
+        for fld in ('body', 'orelse', 'finalbody'):
+            sub = getattr(s, fld, None)
+            if isinstance(sub, list) and sub and isinstance(sub[0], ast.stmt) and not isinstance(s, (ast.FunctionDef, ast.AsyncFunctionDef, ast.ClassDef)):
+                setattr(s, fld, _loop_returns(sub, ret))
+        for h in getattr(s, 'handlers', []) or []:
+            h.body = _loop_returns(h.body, ret)
         out.append(s)
     return out
 
@@ -228,6 +279,11 @@ def expand_call(caller_names, helper, call, form, target=None, branches=None):
     has_attr_store = any(isinstance(n, (ast.Attribute, ast.Subscript)) and isinstance(n.ctx, ast.Store) for n in _own_walk(hn))
     arg_names = {n.id for v in binding.values() for n in ast.walk(v) if isinstance(n, ast.Name)}
     taken = set(caller_names) | arg_names
+    if form == 'assign':
+        # a local of the helper that has the name of a variable the call statement assigns anyway (and that the call does not
+        # read) keeps its name: `sat, unassigned = inspect(c)` with a local `unassigned` in inspect
+        overwritten = {n.id for t in target for n in ast.walk(t) if isinstance(n, ast.Name) and isinstance(n.ctx, ast.Store)}
+        taken -= (overwritten - arg_names)
     rename = {}
     for nm in stored | set(binding):
         if nm in taken and not (nm in binding and isinstance(binding[nm], ast.Name) and binding[nm].id == nm and nm not in stored):
@@ -285,7 +341,7 @@ def expand_call(caller_names, helper, call, form, target=None, branches=None):
         return []
     if form in ('assign', 'test') and not _terminates(body):
         body = body + [ast.copy_location(ast.Return(value=None), call)]
-    out = _structure(body, ret)
+    out = _structure(body, ret, loops_ok=form in ('assign', 'expr'))
     return pre + (out or [ast.copy_location(ast.Pass(), call)])
 
 
@@ -315,8 +371,46 @@ def inlined(func, want, depth=2):
     node = copy.deepcopy(func.node)
     names = {n.id for n in ast.walk(node) if isinstance(n, ast.Name)} | {a.arg for a in ast.walk(node) if isinstance(a, ast.arg)}
 
+    tmp_count = [0]
+
+    def hoist(s, level, stack):
+        """`return self.h(a).items[k]`: the wanted call, evaluated unconditionally inside a simple statement, gets a name
+        of its own in front of the statement"""
+        if not isinstance(s, (ast.Assign, ast.AugAssign, ast.Expr, ast.Return)) or level >= depth:
+            return []
+        top = s.value
+        if top is None:
+            return []
+        pre = []
+        blocked = (ast.Lambda, ast.ListComp, ast.SetComp, ast.DictComp, ast.GeneratorExp, ast.IfExp, ast.BoolOp)
+
+        def visit(e, is_top):
+            for fld, val in ast.iter_fields(e):
+                kids = val if isinstance(val, list) else [val]
+                for i, k in enumerate(kids):
+                    if not isinstance(k, ast.AST) or isinstance(k, blocked):
+                        continue
+                    visit(k, False)
+                    if isinstance(k, ast.Call):
+                        h = _resolve(func, k)
+                        if h is not None and h.node is not func.node and h.qualname not in stack and want(h):
+                            tmp_count[0] += 1
+                            nm = '%s__result%d' % (h.name.strip('_'), tmp_count[0])
+                            names.add(nm)
+                            pre.append(ast.copy_location(ast.Assign(targets=[ast.Name(id=nm, ctx=ast.Store())], value=k), s))
+                            new = ast.copy_location(ast.Name(id=nm, ctx=ast.Load()), k)
+                            if isinstance(val, list):
+                                val[i] = new
+                            else:
+                                setattr(e, fld, new)
+        if isinstance(top, blocked):
+            return []
+        visit(top, True)
+        return pre
+
     def block(stmts, level, stack):
         out = []
+        stmts = [x for s in stmts for x in (hoist(s, level, stack) + [s])]
         for s in stmts:
             call, form, target = None, None, None
             if isinstance(s, ast.Assign) and isinstance(s.value, ast.Call):
